@@ -5,7 +5,7 @@ HttpProtocolHandler + HttpWebServerPlugin + ReverseProxy (+ generated ReversePro
 subclasses) driven in-process through harness/sim.World, and the property oracle.
 
 A case is
-  {'rewrite': 0|1, 'connect': 'ok'|'refused',
+  {'rewrite': 0|1, 'events': 0|1 (--enable-events; absent = 0), 'connect': 'ok'|'refused',
    'plugins': [[route, ...], ...]     route = {'t': 's', 're': regex, 'urls': [hex, ...]}   static
                                             | {'t': 'u', 're': regex, 'url': hex}            dynamic -> Url.from_bytes(url)
                                             | {'t': 'l', 're': regex, 'resp': hex}           dynamic -> literal response
@@ -27,7 +27,7 @@ from harness.common import hx, exc_name, VERIF
 PROPERTY = 'C12'
 LEAN_TARGETS = ['PxProofs.C12']
 THEOREMS = [
-    'Px.Reverse.C12_no_route_404', 'Px.Reverse.C12_404_packet',
+    'Px.Reverse.C12_no_route_404', 'Px.Reverse.C12_404_packet', 'Px.Reverse.C12_events_noop',
     'Px.Reverse.C12_selection', 'Px.Reverse.C12_hits_sound',
     'Px.Reverse.C12_target', 'Px.Reverse.C12_connect_host', 'Px.Reverse.C12_target_static', 'Px.Reverse.C12_default_ports',
     'Px.Reverse.C12_forwarded_request', 'Px.Reverse.C12_forwarded_path',
@@ -40,7 +40,8 @@ THEOREMS = [
 RULE = ('route tables (1..3 plugins, 0..3 routes each: static with 1..3 upstream URLs http/https with/without '
         'port and path, dynamic returning Url or literal response or raising; edge URLs without scheme/host, bad '
         'scheme, port 0; IPv6 literal hosts inside the quantifier) x request paths matching none/one/several routes x methods x header sets x '
-        'bodies (none / Content-Length / chunked) x both --rewrite-host-header settings x scripted random.choice x '
+        'bodies (none / Content-Length / chunked) x both --rewrite-host-header settings x --enable-events on/off (with '
+        'Authorization / Cookie / Proxy-Authorization fields) x scripted random.choice x '
         'upstream recv schedules; thorough adds every table of 2 plugins x <=2 routes over 8 route shapes x 3 paths '
         'x 2 rewrite settings; distinct by canonical JSON; non-trivial = inside the property quantifier')
 ASSUMPTIONS = [
@@ -50,7 +51,9 @@ ASSUMPTIONS = [
     'regex matching is a parameter of the model: the match table is computed by the harness with the real `re`',
     'random.choice is a scripted index; plugins keep the base-class before_routing/protocols/regexes; '
     'handle_route returns a Url or a memoryview (the TcpServerConnection variant is not covered)',
-    '--enable-static-server off (C13), --enable-events off, client side not TLS',
+    '--enable-static-server off (C13), client side not TLS; --enable-events on in about a third of the cases: the model '
+    'takes emit_request_complete() to publish a copy and leave the request untouched (only its raising is modelled) — '
+    'the correspondence and the oracle check that the implementation does',
     'the forwarded bytes are stated in terms of the Url / Parser / Build models (Url.from_bytes, HttpParser.parse, '
     'build_http_request): their own correctness is C14 / C03 / C15; here they are exercised end to end through the handler',
 ]
@@ -154,6 +157,32 @@ class _Choice:
         return getattr(self._real, item)
 
 
+_WORLD = []
+
+
+def _world_class():
+    """sim.World whose handlers get a real core EventQueue (over a plain queue.Queue) so that
+    --enable-events configurations can publish; what is published is drained and ignored."""
+    if _WORLD:
+        return _WORLD[0]
+    import queue
+    from harness.sim import World
+    from proxy.core.event import EventQueue
+    from proxy.http.handler import HttpProtocolHandler
+
+    class EvWorld(World):
+        def make_handler(self, sock, addr=('127.0.0.1', 54321), uid=None):
+            self.published = queue.Queue()
+            h = HttpProtocolHandler(
+                HttpProtocolHandler.create(sock, addr),
+                flags=self.flags, event_queue=EventQueue(self.published), uid=uid, upstream_conn_pool=None,
+            )
+            h.initialize()
+            return h
+    _WORLD.append(EvWorld)
+    return EvWorld
+
+
 def _classify(segs):
     """parse-exc / incomplete / notweb / leftover / None (exactly one completed web-server request)"""
     from proxy.http.parser import HttpParser, httpParserTypes
@@ -188,7 +217,8 @@ def _drive(case):
     if skip:
         return {'skip': skip}
     classes, seqs = _mk_plugins(case)
-    args = ['--enable-web-server', '--enable-reverse-proxy'] + (['--rewrite-host-header'] if case['rewrite'] else [])
+    args = ['--enable-web-server', '--enable-reverse-proxy'] + (['--rewrite-host-header'] if case['rewrite'] else []) \
+        + (['--enable-events'] if case.get('events') else [])
     obs = {'skip': None}
     wraps = []
     hr_exc = []
@@ -211,7 +241,7 @@ def _drive(case):
     SRV.TcpServerConnection.wrap = fake_wrap
     RV.ReverseProxy.handle_request = spy_hr
     try:
-        with World(args=args, threadless=True, strict=False, plugins=classes) as w:
+        with _world_class()(args=args, threadless=True, strict=False, plugins=classes) as w:
             if case['connect'] == 'refused':
                 w.connect_plan.append(ConnectionRefusedError(111, 'scripted refused'))
             h, cs, cp = w.new_client()
@@ -370,8 +400,8 @@ def model_lines(case):
     ids = _patterns(case)
     picks = ','.join(str(k) for k in case['picks']) or '-'
     evs = ','.join((e or '-') for e in case['up']) or '-'
-    return ['rev run %d %s %s %s %s %s %s' % (
-        case['rewrite'], case['connect'], _enc_table(case, ids), _match_bits(case, ids), picks, evs,
+    return ['rev run %d %d %s %s %s %s %s %s' % (
+        case['rewrite'], 1 if case.get('events') else 0, case['connect'], _enc_table(case, ids), _match_bits(case, ids), picks, evs,
         ' '.join((s or '-') for s in case['req']))]
 
 
@@ -438,9 +468,24 @@ def _route_candidates(case, path_text):
     return lits, cands, anym, yields, inq
 
 
+def _emit_ok(m):
+    """--enable-events: emit_request_complete() needs a Host field and decodable method/path/header text"""
+    hs = [(bytes.fromhex(k), bytes.fromhex(v)) for k, v in m['headers']]
+    if not any(k.lower() == b'host' for k, _ in hs):
+        return False
+    try:
+        for x in [bytes.fromhex(m['method']), bytes.fromhex(m['target'])] + [y for kv in hs for y in kv]:
+            x.decode('utf-8')
+    except UnicodeDecodeError:
+        return False
+    return True
+
+
 def in_quantifier(case):
     m = case.get('meta')
     if not m or not m.get('valid') or case['connect'] != 'ok':
+        return False
+    if case.get('events') and not _emit_ok(m):
         return False
     try:
         path_text = bytes.fromhex(m['target']).decode('utf-8')
@@ -611,6 +656,8 @@ EDGE_URLS = [b'//host.test/p', b'host.test:9000', b'host.test', b'ftp://h.test/'
              b'http://u:p@h.test/x', b'http://h.test:abc/', b'http:///x', b'http://h.test:0/z', b'https://h.test:0',
              b'http://[::1]:8080/x', b'https://[2001:db8::1]/', b'http://h.test:-1/', b'http://h\xff.test/',
              b'http://h.test:+80/', b'http://a@h.test/']
+CRED_HEADERS = [(b'Authorization', b'Basic dXNlcjpwYXNz'), (b'Cookie', b'sid=abc; theme=dark'),
+                (b'Proxy-Authorization', b'Basic cHJveHk6cHc='), (b'X-Api-Key', b'k-123')]
 LITERALS = [b'HTTP/1.1 200 OK\r\nContent-Length: 2\r\n\r\nhi', b'HTTP/1.1 204 No Content\r\n\r\n', b'x', b'']
 
 
@@ -658,7 +705,7 @@ def _rpicks(rng, plugins, edge):
     return picks
 
 
-def _request(rng, target, framing=None, ws=False, version=None, method=None):
+def _request(rng, target, framing=None, ws=False, version=None, method=None, extra_headers=()):
     method = method or rng.choice(G.METHODS)
     version = version or rng.choice([b'HTTP/1.1', b'HTTP/1.1', b'HTTP/1.0'])
     framing = framing or rng.choice(['none', 'none', 'cl', 'chunked', 'cl0'])
@@ -667,7 +714,10 @@ def _request(rng, target, framing=None, ws=False, version=None, method=None):
         headers = [(k, v) for k, v in headers if k.lower() not in (b'connection', b'upgrade')]
         headers += [(b'Connection', b'Upgrade'), (b'Upgrade', rng.choice([b'websocket', b'WebSocket']))]
         version = b'HTTP/1.1'
-    if rng.random() < 0.8:
+    for k, v in extra_headers:
+        if not any(h.lower() == k.lower() for h, _ in headers):
+            headers.insert(rng.randrange(len(headers) + 1), (k, v))
+    if rng.random() < 0.8 and not any(h.lower() == b'host' for h, _ in headers):
         headers.insert(rng.randrange(len(headers) + 1),
                        (G.rcase(rng, b'Host'), rng.choice([b'front.example', b'front.example:8080', b'me'])))
     n = rng.choice([0, 1, 2, 5, 17, 100, 300]) if framing in ('cl', 'chunked') else 0
@@ -706,15 +756,15 @@ def _rup(rng):
 
 
 def _mk_case(rng, plugins, picks, target, rewrite, framing=None, up=None, connect='ok', cut=True, ws=False,
-             raw=None, version=None, method=None):
+             raw=None, version=None, method=None, events=0, extra_headers=()):
     if raw is None:
-        raw, meta = _request(rng, target, framing, ws, version, method)
+        raw, meta = _request(rng, target, framing, ws, version, method, extra_headers)
     else:
         meta = {'valid': False}
     segs = [raw]
     if cut and len(raw) > 1 and rng.random() < 0.4:
         segs = G.split_at(raw, G.cuts(rng, len(raw), rng.choice([1, 1, 2])))
-    return {'rewrite': rewrite, 'connect': connect, 'plugins': plugins, 'picks': picks,
+    return {'rewrite': rewrite, 'events': events, 'connect': connect, 'plugins': plugins, 'picks': picks,
             'req': [s.hex() for s in segs], 'up': _rup(rng) if up is None else up, 'meta': meta}
 
 
@@ -739,6 +789,19 @@ def corpus():
         cs.append(_mk_case(rng, [[_static('/get$', [b'http://[::1]:8080/x'])]], [0], b'/get', rw, 'none', up=[b'r'.hex()]))
         cs.append(_mk_case(rng, [[_static('/get$', [b'https://[2001:db8::1]'])]], [0], b'/get', rw, 'cl', up=[]))
         cs.append(_mk_case(rng, [[{'t': 'u', 're': '/get$', 'url': b'http://[::1]/'.hex()}]], [0], b'/get', rw, 'none', up=[]))
+    # --enable-events: emit_request_complete() publishes a copy; Authorization / Cookie / Proxy-Authorization must
+    # still reach the upstream (round-3 seeded regression B popped them from the live header dict)
+    for rw in (0, 1):
+        cs.append(_mk_case(rng, [[_static('/get$', [b'http://up.test:8080/x'])]], [0], b'/get', rw, 'cl', up=[b'r'.hex()],
+                           events=1, extra_headers=CRED_HEADERS + [(b'Host', b'front.example')], method=b'POST'))
+        cs.append(_mk_case(rng, [[_static('/get$', [b'http://up.test:8080/x'])]], [0], b'/nope', rw, 'none', up=[],
+                           events=1, extra_headers=CRED_HEADERS + [(b'Host', b'front.example')]))
+    cs.append(_mk_case(rng, [[_static('/', [b'http://up.test'])]], [0], b'/', 0, up=[], cut=False, events=1,
+                       raw=b'GET / HTTP/1.1\r\nCookie: a=b\r\n\r\n'))                       # no Host: KeyError
+    cs.append(_mk_case(rng, [[_static('/', [b'http://up.test'])]], [0], b'/', 0, up=[], cut=False, events=1,
+                       raw=b'GET / HTTP/1.1\r\nHost: me\r\nX-A: \xff\r\n\r\n'))               # undecodable value
+    cs.append(_mk_case(rng, [[_static('/', [b'http://up.test'])]], [0], b'/', 0, up=[], cut=False, events=1,
+                       raw=b'GET /\xff HTTP/1.1\r\nHost: me\r\n\r\n'))
     # edge URLs (outside the quantifier; correspondence only)
     for u in EDGE_URLS:
         cs.append(_mk_case(rng, [[_static('/', [u])]], [0], b'/', 1, 'none', up=[]))
@@ -802,8 +865,13 @@ def generate(rng, tier):
         picks = _rpicks(rng, plugins, edge)
         target = rng.choice(PATHS) if rng.random() > edge / 8 else rng.choice([b'/\xff', b'/get\xc3'])
         connect = 'refused' if rng.random() < edge / 4 else 'ok'
+        events = 1 if rng.random() < 0.35 else 0
+        extra = []
+        if rng.random() < 0.5:
+            extra = rng.sample(CRED_HEADERS, rng.randrange(1, 4))
+            extra = [(G.rcase(rng, k), v) for k, v in extra]
         yield _mk_case(rng, plugins, picks, target, rng.randrange(2), connect=connect,
-                       ws=rng.random() < 0.05)
+                       ws=rng.random() < 0.05, events=events, extra_headers=extra)
     # malformed / non-web requests: correspondence of the guard only
     for _ in range(1500 if big else 150):
         g = G.gen_request(rng, maxbody=40)
@@ -816,6 +884,7 @@ def generate(rng, tier):
 def neighbours(case):
     for rw in (0, 1):
         yield dict(case, rewrite=rw)
+        yield dict(case, rewrite=rw, events=1 - (1 if case.get('events') else 0))
     for i in range(len(case['picks'])):
         for k in (0, 1, 2):
             p = list(case['picks'])
@@ -832,7 +901,8 @@ def search(rng):
 
 def describe(case):
     m = case.get('meta') or {}
-    out = ['plugins=%d' % len(case['plugins']), 'rewrite=%d' % case['rewrite'], 'in-quantifier=%d' % in_quantifier(case)]
+    out = ['plugins=%d' % len(case['plugins']), 'rewrite=%d' % case['rewrite'], 'events=%d' % (1 if case.get('events') else 0),
+           'in-quantifier=%d' % in_quantifier(case)]
     if m.get('valid'):
         out.append('framing=' + m['framing'])
         try:
